@@ -352,6 +352,14 @@ def run(R):
                      "remainder a sub-parser returns (`start[..start.len() - rest.len()]`), that sub-parser - and every parser whose remainder it "
                      "passes on - must return the remainder right after the last thing it consumed, never the result of the blank/comment "
                      "skipper: otherwise a trailing `# comment` becomes part of the operand text (comment-dependent tree)")
+    R.rule("C16-R7", "recursion through the parser is depth-bounded: every cycle of the call graph among the parser functions reachable from the "
+                     "entry points (calls and function values handed to combinators) contains a function that enters a nesting guard - a "
+                     "counter compared with a constant limit, failing the parse beyond it - before it recurses; otherwise a few kilobytes of "
+                     "`(((((` or `{{{{{` exhaust the stack and abort the process (totality)")
+    R.rule("C16-R8", "trees are not deepened without bound by iteration: a loop of the parser that wraps its accumulator into a new node of the same "
+                     "recursive tree type each turn (`expression = And(Box::new(expression), right)`) charges the depth budget in that turn, before the "
+                     "wrap, and leaves the parse when the charge fails. The tree types are walked recursively by every consumer (lowering, the "
+                     "optimizer, Drop), so an operator chain of a few thousand links otherwise overflows the stack after a successful parse")
     R.rule("C16-R5", "nothing parsed is discarded: whatever a sub-parser of parser.rs returns as its payload flows into the value the "
                      "calling parser returns (or decides a branch); a payload may be ignored only by a recogniser that returns the "
                      "consumed source slice computed from the remainder (`input[..input.len() - rest.len()]`). A modifier or pattern "
@@ -370,6 +378,8 @@ def run(R):
     r4(R, bodies)
     r5(R)
     r6(R)
+    r7(R, ents)
+    r8(R, ents)
 
 
 def certify(R, prog, bodies, rule):
@@ -915,3 +925,195 @@ def _remainder_targets(b, call):
             elif comp is None:
                 work.append(st["pl"]["l"])
     return out
+
+
+# ---------------------------------------------------------------- R7 bounded recursion
+
+def _structural_descent(prog, comp, comps, guards, nodes):
+    """A walker that re-parses its argument with a guarded recogniser and recurses only inside the closure applied to that recogniser's result, on
+    parts of that result: its depth is the nesting of a text the guarded recogniser accepted, so it is bounded by the same limit."""
+    from lib import pipeline as P
+    fns = [k for k in comp if not prog.bodies[k].is_closure]
+    cls = [k for k in comp if prog.bodies[k].is_closure]
+    if len(fns) != 1 or not cls:
+        return False
+    f = prog.bodies[fns[0]]
+    # recursion only from the closures
+    if any(c.key in comp for c in f.calls()):
+        return False
+    gated = {k2 for c2 in comps if c2 is not comp for k2 in c2 if any(g.key in guards for g in prog.bodies[k2].calls())}
+    gnames = {prog.bodies[g].name.split("::")[-1] for g in gated}
+
+    def only_own_values(cb, l):
+        d = P.derives(prog, cb, l)
+        return bool(d) and all(t[0] in ("param", "field") for t in d)
+
+    def from_top_param(ck):
+        """every value closure `ck` can see is a part of the argument of the outermost closure it is nested in; returns that closure"""
+        cb = prog.bodies[ck]
+        parent = ck.rsplit("::{closure#", 1)[0]
+        if parent == f.key:
+            agg = [rv for bb, i, pl, rv, st in f.assigns() if rv["rv"] == "aggregate" and rv.get("closure") == ck]
+            return ck if agg and all(not rv["ops"] for rv in agg) else None
+        if parent not in prog.bodies:
+            return None
+        pb = prog.bodies[parent]
+        for bb, i, pl, rv, st in pb.assigns():
+            if rv["rv"] == "aggregate" and rv.get("closure") == ck:
+                for o in rv["ops"]:
+                    opl = F.op_place(o)
+                    if opl is None or not only_own_values(pb, opl["l"]):
+                        return None
+        return from_top_param(parent)
+
+    tops = set()
+    for ck in cls:
+        cb = prog.bodies[ck]
+        for c in cb.calls():
+            if c.key not in comp:
+                continue
+            for a in c.args:
+                pl = F.op_place(a)
+                if pl is None or not only_own_values(cb, pl["l"]):
+                    return False
+            top = from_top_param(ck)
+            if top is None:
+                return False
+            tops.add(top)
+    if not tops:
+        return False
+    # each outermost closure is applied to a value derived from a guarded recogniser's result
+    for top in tops:
+        applied = False
+        for c in f.calls():
+            for i, a in enumerate(c.args):
+                key, _ = P._closure_calls(prog, f, a)
+                if key == top and i > 0:
+                    p0 = F.op_place(c.args[0])
+                    if p0 is None:
+                        return False
+                    d = P.derives(prog, f, p0["l"])
+                    if not any(t[0] == "call" and t[1] in gnames for t in d):
+                        return False
+                    applied = True
+        if not applied:
+            return False
+    return True
+
+
+def r7(R, ents):
+    prog = R.prog
+    reach = prog.reachable([b.key for b in ents if b is not None])
+    nodes = {k for k in reach if k in prog.bodies and prog.bodies[k].crate == "kolibrie" and prog.bodies[k].file.endswith("parser.rs")}
+    adj = {}
+    for k in nodes:
+        b = prog.bodies[k]
+        outs = set()
+        for c in b.calls():
+            if c.key in nodes:
+                outs.add(c.key)
+            for a in c.args:
+                fk = a.get("fn_resolved") or a.get("fn") if a.get("k") == "const" else None
+                if fk in nodes:
+                    outs.add(fk)
+        for bb, i, pl, rv, st in b.assigns():
+            for o in F.rv_operands(rv):
+                fk = (o.get("fn_resolved") or o.get("fn")) if o.get("k") == "const" else None
+                if fk in nodes:
+                    outs.add(fk)
+        for cl in prog.closures_of(k, recursive=False):
+            if cl.key in nodes:
+                outs.add(cl.key)
+        adj[k] = outs
+    # Tarjan, iterative
+    index, low, onstack, stack, comps = {}, {}, set(), [], []
+    counter = [0]
+    for root in sorted(nodes):
+        if root in index:
+            continue
+        work = [(root, iter(sorted(adj.get(root, ()))))]
+        index[root] = low[root] = counter[0]
+        counter[0] += 1
+        stack.append(root)
+        onstack.add(root)
+        while work:
+            v, it = work[-1]
+            advanced = False
+            for w in it:
+                if w not in index:
+                    index[w] = low[w] = counter[0]
+                    counter[0] += 1
+                    stack.append(w)
+                    onstack.add(w)
+                    work.append((w, iter(sorted(adj.get(w, ())))))
+                    advanced = True
+                    break
+                elif w in onstack:
+                    low[v] = min(low[v], index[w])
+            if advanced:
+                continue
+            work.pop()
+            if work:
+                low[work[-1][0]] = min(low[work[-1][0]], low[v])
+            if low[v] == index[v]:
+                comp = []
+                while True:
+                    w = stack.pop()
+                    onstack.discard(w)
+                    comp.append(w)
+                    if w == v:
+                        break
+                if len(comp) > 1 or v in adj.get(v, ()):
+                    comps.append(comp)
+    from lib import depth as D
+    guards = D.charging_fns(prog, lambda x: x.file.endswith("parser.rs"))
+    R.ob("C16-R7", "guards", "the parser has a nesting guard - a function that advances a counter, compares it with a constant and fails, or a wrapper "
+         "that always passes through one (%s)" % ", ".join(sorted(prog.bodies[g].name for g in guards)), bool(guards),
+         detail=None if guards else "no function of parser.rs has the shape of a depth guard")
+    R.floor("C16-R7", "recursion cycles among the parser functions", len(comps), 4)
+    for comp in sorted(comps, key=lambda c: sorted(c)[0]):
+        names = sorted({(prog.bodies[prog.bodies[k].root].name if prog.bodies[k].is_closure and prog.bodies[k].root in prog.bodies else prog.bodies[k].name) for k in comp})
+        guarded = False
+        direct = False
+        for k in comp:
+            b = prog.bodies[k]
+            gcalls = [c for c in b.calls() if c.key in guards]
+            if gcalls:
+                # the guard is entered before the function recurses
+                rec = [c for c in b.calls() if c.key in comp or any((a.get("fn_resolved") or a.get("fn")) in comp for a in c.args if a.get("k") == "const")]
+                # ... and the guard object is still alive when it does (`let _ = enter()?` releases it at once)
+                gtypes = D._guard_types(prog)
+                drops = [i for i, blk in enumerate(b.blocks) if blk["term"]["t"] == "drop" and D._base(blk["term"].get("ty", "")) in gtypes]
+                released = any(c.bb in b.reach_from([d]) for d in drops for c in rec)
+                if (all(any(b.dominates(g.bb, c.bb) or g.bb == c.bb for g in gcalls) for c in rec) or not rec) and not released:
+                    guarded = True
+                    direct = True
+        if not guarded:
+            guarded = _structural_descent(prog, comp, comps, guards, nodes)
+        R.ob("C16-R7", "bounded:" + "+".join(names[:4]), "the recursion %s is depth-bounded%s" % (" -> ".join(names[:5]), "" if direct or not guarded else
+             " (each level first runs a guarded recogniser on the same text)"), guarded, where=prog.bodies[sorted(comp)[0]].where(),
+             detail=None if guarded else "nothing limits how deep this cycle nests: input such as 5000 opening parentheses / braces / `<<` overflows the stack and "
+             "aborts the process instead of returning an error")
+
+
+# ---------------------------------------------------------------- R8 bounded deepening by iteration
+
+def r8(R, ents):
+    from lib import depth as D
+    prog = R.prog
+    rec = D.recursive_adts(prog)
+    reach = prog.reachable([b.key for b in ents if b is not None])
+    budgets = D.persistent(prog, D.charging_fns(prog, lambda x: x.file.endswith("parser.rs")))
+    n = 0
+    for k in sorted(reach):
+        b = prog.bodies.get(k)
+        if b is None or b.crate != "kolibrie" or not b.file.endswith("parser.rs"):
+            continue
+        for h, blocks, l, nm, bb, how in D.deepening_loops(b, rec):
+            n += 1
+            c = D.loop_charged(b, h, blocks, bb, budgets)
+            R.ob("C16-R8", "%s:%s" % (b.name.split("::")[-1], nm), "the loop of %s that deepens `%s` (%s) charges the depth budget each turn"
+                 % (b.name, nm, D._base(b.local_ty(l)).split("::")[-1]), c is not None, where=b.where(),
+                 detail=None if c is not None else "each turn wraps `%s` into a new node and nothing bounds the number of turns: a chain of operators as long "
+                 "as the input builds a tree that deep, and the recursive consumers (optimizer, Drop) overflow the stack" % nm)
+    R.floor("C16-R8", "loops of the parser that deepen a recursive tree", n, 4)
